@@ -631,6 +631,14 @@ def as_number_pair(v):
     return s_and(a >= 0, b >= 0, s_or(s_and(a <= M16, b <= M32), s_and(a <= M32, b <= M16)))
 
 
+def vpls_block(v):
+    """RFC 4761 3.2.2: VE ID, VE block offset, VE block size are two octets; the label base is a 20-bit label (three octets) and the
+    label block {base .. base+size-1} has to lie inside the label space.  (Stated conservatively: base + size <= 2^20 - 1, which is
+    what ExaBGP's own consistency rule asks; the one block ending exactly at label 2^20-1 is left undecided.)"""
+    endpoint, base, offset, size = v
+    return s_and(in_range(endpoint, (0, M16)), in_range(base, (0, M20)), in_range(offset, (0, M16)), in_range(size, (0, M16)), base + size <= M20)
+
+
 class Case:
     def __init__(self, kw, words, nums, wire, section='static', fam=U4, famcode=(1, 1), shapes=None, rfc=None, quick=True, api='route',
                  cover=None, in_file=True):
@@ -673,12 +681,12 @@ def case(name, *a, **k):
 
 case('static/med', 'med', lambda v: R4 + ['med', (v[0],)], [('med', rng(0, M32))], w_med)
 case('static/local-preference', 'local-preference', lambda v: R4 + ['local-preference', (v[0],)], [('local-preference', rng(0, M32))], w_localpref, shapes=ALL8)
-case('static/as-path-1', 'as-path', lambda v: R4 + ['as-path', '[', (v[0],), ']'], [('asn0', rng(0, M32))], w_aspath, shapes=ALL8)
-case('static/as-path-bare', 'as-path', lambda v: R4 + ['as-path', (v[0],)], [('asn0', rng(0, M32))], w_aspath)
-case('static/as-path-2', 'as-path', lambda v: R4 + ['as-path', '[', (v[0],), (v[1],), ']'], [('asn0', rng(0, M32)), ('asn1', rng(0, M32))], w_aspath)
+case('static/as-path-1', 'as-path', lambda v: R4 + ['as-path', '[', (v[0],), ']'], [('asn0', rng(1, M32))], w_aspath, shapes=ALL8)
+case('static/as-path-bare', 'as-path', lambda v: R4 + ['as-path', (v[0],)], [('asn0', rng(1, M32))], w_aspath)
+case('static/as-path-2', 'as-path', lambda v: R4 + ['as-path', '[', (v[0],), (v[1],), ']'], [('asn0', rng(1, M32)), ('asn1', rng(1, M32))], w_aspath)
 case('static/as-path-3', 'as-path', lambda v: R4 + ['as-path', '[', (v[0],), (v[1],), (v[2],), ']'],
-     [('asn0', rng(0, M32)), ('asn1', rng(0, M32)), ('asn2', rng(0, M32))], w_aspath, quick=False)
-case('static/aggregator', 'aggregator', lambda v: R4 + ['aggregator', '(', (v[0], ':192.0.2.9'), ')'], [('aggregator-as', rng(0, M32))], w_aggregator, shapes=ALL8)
+     [('asn0', rng(1, M32)), ('asn1', rng(1, M32)), ('asn2', rng(1, M32))], w_aspath, quick=False)
+case('static/aggregator', 'aggregator', lambda v: R4 + ['aggregator', '(', (v[0], ':192.0.2.9'), ')'], [('aggregator-as', rng(1, M32))], w_aggregator, shapes=ALL8)
 case('static/community', 'community', lambda v: R4 + ['community', (v[0], ':', v[1])], [('high', rng(0, M16)), ('low', rng(0, M16))], w_community_pair)
 case('static/community-32bit', 'community', lambda v: R4 + ['community', (v[0],)], [('value', rng(0, M32))], w_community_int)
 case('static/community-list', 'community', lambda v: R4 + ['community', '[', (v[0], ':', v[1]), (v[2], ':', v[3]), ']'],
@@ -712,7 +720,7 @@ case('static/bgp-prefix-sid-srgb', 'bgp-prefix-sid', lambda v: R4 + ['bgp-prefix
 
 case('vpls/endpoint-base-offset-size', 'vpls',
      lambda v: ['vpls', 'rd', '192.0.2.7:5', 'endpoint', (v[0],), 'base', (v[1],), 'offset', (v[2],), 'size', (v[3],), 'next-hop', '1.2.3.4'],
-     [('endpoint', rng(0, M16)), ('base', rng(0, M20)), ('offset', rng(0, M16)), ('size', rng(0, M16))], w_vpls,
+     [('endpoint', rng(0, M16)), ('base', rng(0, M20)), ('offset', rng(0, M16)), ('size', rng(0, M16))], w_vpls, rfc=vpls_block,
      section='l2vpn', fam=('l2vpn vpls',), famcode=(25, 65), shapes=NOAP, api='vpls')
 
 SRC = ['source', '10.0.0.0/24', ';']
@@ -863,14 +871,24 @@ def witnesses(ctx, case_, words, outcome):
     info = {'text': text}
 
     def api_ok():
-        replies, routes, raised = api_reply(case_.api, text)
+        try:
+            with _Alarm(60):
+                replies, routes, raised = api_reply(case_.api, text)
+        except DoesNotReturn as exc:
+            info['api'] = {'does-not-return': str(exc)}
+            return False
         info['api'] = {'replies': replies, 'announced': len(routes), 'raised': None if raised is None else '%s: %s' % (exc_name(raised), raised)}
         if raised is not None or len(replies) != 1:
             return False
         return (replies == ['done'] and len(routes) >= 1) if outcome == 'accept' else (replies == ['error'] and not routes)
 
     def file_ok():
-        ok, error, line_no = file_verdict(case_, text)
+        try:
+            with _Alarm(60):
+                ok, error, line_no = file_verdict(case_, text)
+        except DoesNotReturn as exc:
+            info['file'] = {'does-not-return': str(exc)}
+            return False
         info['file'] = {'accepted': ok, 'error': error[-300:]}
         if outcome == 'accept':
             return ok
@@ -978,11 +996,11 @@ def w_origin(w, v):  # RFC 4271 4.3 a
 
 
 def w_rate(code):
-    def reader(w, v):  # RFC 8955 7.1 / 7.2: 0x8006 / 0x800c, 2-octet AS, IEEE float; MUST NOT be negative
+    def reader(w, v):  # RFC 8955 7.1 / 7.2: 0x8006 / 0x800c, 2-octet AS, IEEE float
         x = ext_with(w, bytes([0x80, code]))
         rate = struct.unpack('!f', bytes(x[4:8]))[0]
         want = struct.unpack('!f', struct.pack('!f', float(v[0])))[0]
-        return [('.rate-not-negative', rate >= 0, True), ('rate', rate, want)]
+        return [('rate', rate, want)]
     return reader
 
 
@@ -1036,12 +1054,17 @@ class Sample(Case):
         Case.__init__(self, kw, lambda v, t=text: t.split(' '), [], wire, **k)
         self.text = text
         self.expect = expect
+        self.rfc = lambda v: expect == 'accept'  # only these texts are claimed to be definitions the RFCs allow
         self.values = list(values)
         self.routes = routes
 
 
 def S(kw, tail, *a, **k):
     return Sample(kw, ' '.join(R4) + ' ' + tail, *a, **k)
+
+
+def NH(tail, *a, **k):
+    return Sample('next-hop', ('route 10.0.0.0/24 next-hop ' + tail).strip(), *a, **k)
 
 
 def FS(kw, match, then, *a, **k):
@@ -1053,7 +1076,7 @@ SAMPLES = {
         S('med', 'med 007', 'accept', w_med, [7]),
         S('med', 'med +5'), S('med', 'med 1_000'), S('med', 'med \u0663', None, w_med, [3]), S('med', 'med \u00b2'), S('med', 'med 0x10'),
         S('med', 'med'), S('med', 'med 5 5', 'refuse'), S('local-preference', 'local-preference 5 med', 'refuse'),
-        S('label', 'label 1_000', None, w_label, [1000], **MPLS), S('label', 'label [ ]', **MPLS), S('label', 'label 0x10', **MPLS),
+        S('label', 'label 1_000', None, w_label, [1000], **MPLS), S('label', 'label [ ]'), S('label', 'label 0x10', **MPLS),
         S('aigp', 'aigp 0x64', 'accept', w_aigp, [100]), S('aigp', 'aigp 0x10000000000000000', 'refuse'), S('aigp', 'aigp 0xZZ', 'refuse'),
         S('community', 'community 0x10', 'accept', w_community_raw, [16]), S('community', 'community 0xFFFFFFFFF', 'refuse'),
         S('community', 'community no-export', 'accept', w_community_raw, [0xFFFFFF01]), S('community', 'community [ ]'),
@@ -1071,12 +1094,17 @@ SAMPLES = {
         S('bgp-prefix-sid', 'bgp-prefix-sid [ ]'), S('bgp-prefix-sid', 'bgp-prefix-sid 5'), S('bgp-prefix-sid', 'bgp-prefix-sid [ 5 , [ ( 1 ) ] ]'),
         S('split', 'split /25', 'accept', w_two_masks, [25], routes=2), S('split', 'split /33'), S('split', 'split /2', 'accept'), S('split', 'split 25', 'refuse'),
         S('split', 'split /-1'), S('watchdog', 'watchdog announce', 'refuse'), S('name', 'name x y', 'refuse'),
+        # lists which are never closed: the words run out (the tokeniser then answers '' for ever)
+        S('community', 'community [ 1:2', 'refuse'), S('large-community', 'large-community [ 1:2:3', 'refuse'), S('extended-community', 'extended-community [ target:1:2', 'refuse'),
+        S('label', 'label [ 3', 'refuse', **MPLS), S('cluster-list', 'cluster-list [ 1.2.3.4', 'refuse'), S('bgp-prefix-sid', 'bgp-prefix-sid [ 5', 'refuse'),
+        S('bgp-prefix-sid', 'bgp-prefix-sid [ 5 , [ ( 1 , 2', 'refuse'), S('bgp-prefix-sid', 'bgp-prefix-sid [ 5 , [ ( 1 , 2 )', 'refuse'), S('attribute', 'attribute [ 0x99 0xc0 0x0102', 'refuse'),
+        S('bgp-prefix-sid-srv6', 'bgp-prefix-sid-srv6 ( l3-service 2001:db8::1'), S('bgp-prefix-sid-srv6', 'bgp-prefix-sid-srv6 ( l3-service 2001:db8::1 0x48 [ 1 , 2'),
     ],
     'lexical/names-and-addresses': [
         S('origin', 'origin igp', 'accept', w_origin, [0]), S('origin', 'origin egp', 'accept', w_origin, [1]), S('origin', 'origin incomplete', 'accept', w_origin, [2]),
         S('origin', 'origin IGP', 'accept', w_origin, [0]), S('origin', 'origin foo', 'refuse'), S('origin', 'origin 0'), S('origin', 'origin'),
-        S('next-hop', 'next-hop 255.255.255.255', 'accept', w_nexthop, [255, 255, 255, 255]), S('next-hop', 'next-hop 256.1.1.1'), S('next-hop', 'next-hop 1.2.3'),
-        S('next-hop', 'next-hop 1.2.3.4.5'), S('next-hop', 'next-hop -1.2.3.4'), S('next-hop', 'next-hop 01.2.3.4'), S('next-hop', 'next-hop'),
+        NH('255.255.255.255', 'accept', w_nexthop, [255, 255, 255, 255]), NH('256.1.1.1', 'refuse'), NH('1.2.3', 'refuse'),
+        NH('1.2.3.4.5', 'refuse'), NH('-1.2.3.4', 'refuse'), NH('01.2.3.4'), NH('', 'refuse'), NH('1.2.3.4 next-hop 255.255.255.255'),
         S('originator-id', 'originator-id 1.2.3.4', 'accept', w_origid, [1, 2, 3, 4]), S('originator-id', 'originator-id 256.1.1.1'), S('originator-id', 'originator-id 1.2.3'),
         S('cluster-list', 'cluster-list 1.2.3.4', 'accept'), S('cluster-list', 'cluster-list [ 1.2.3.4 256.1.1.1 ]'), S('cluster-list', 'cluster-list [ ]'),
         S('aggregator', 'aggregator ( 65000:256.1.1.1 )'), S('aggregator', 'aggregator ( 65000:1.2.3 )'), S('aggregator', 'aggregator ( 65000 )'),
@@ -1102,10 +1130,11 @@ SAMPLES = {
         FS('source', 'source 10.0.0.0 ;', 'discard ;'), FS('source', 'source 10.0.0/24 ;', 'discard ;'),
         FS('protocol', 'source 10.0.0.0/24 ; protocol tcp ;', 'discard ;', 'accept', w_flow_numeric(3, [(0, EQ)]), [6]), FS('protocol', 'protocol bogus ;', 'discard ;', 'refuse'),
         FS('protocol', 'protocol [ tcp udp ] ;', 'discard ;', 'accept', w_flow_numeric(3, [(0, EQ), (0, EQ)]), [6, 17]),
-        FS('destination-port', 'destination-port =80& ;', 'discard ;', 'refuse'), FS('destination-port', 'destination-port >=1024&<=2048 ;', 'discard ;', 'accept',
+        FS('destination-port', 'destination-port =80& ;', 'discard ;', None, w_flow_numeric(5, [(0, EQ)]), [80]), FS('destination-port', 'destination-port >=1024&<=2048 ;', 'discard ;', 'accept',
                                                                                       w_flow_numeric(5, [(0, GT | EQ), (1, LT | EQ)]), [1024, 2048]),
         FS('destination-port', 'destination-port = ;', 'discard ;'), FS('destination-port', 'destination-port > ;', 'discard ;'), FS('destination-port', 'destination-port ! ;', 'discard ;'),
-        FS('destination-port', 'destination-port =80|=90 ;', 'discard ;'), FS('destination-port', 'destination-port true ;', 'discard ;'),
+        FS('destination-port', 'destination-port =80|=90 ;', 'discard ;'), FS('destination-port', 'destination-port [ =80 ;', 'discard ;'),
+        FS('destination-port', 'destination-port [ =80', 'discard ;'), FS('tcp-flags', 'tcp-flags [ syn', 'discard ;'), FS('destination-port', 'destination-port true ;', 'discard ;'),
         FS('tcp-flags', 'tcp-flags syn ;', 'discard ;', 'accept'), FS('tcp-flags', 'tcp-flags =syn+ack ;', 'discard ;', 'accept'), FS('tcp-flags', 'tcp-flags bogus ;', 'discard ;', 'refuse'),
         FS('tcp-flags', 'tcp-flags 65536 ;', 'discard ;'), FS('fragment', 'fragment is-fragment ;', 'discard ;', 'accept'), FS('fragment', 'fragment 256 ;', 'discard ;'),
         FS('redirect', 'source 10.0.0.0/24 ;', 'redirect 1.2.3.4 ;', 'accept'), FS('redirect', 'source 10.0.0.0/24 ;', 'redirect 1.2.3.4:5 ;', 'refuse'),
@@ -1141,8 +1170,8 @@ def units(tier):
         if not th and not case_.quick:
             continue
         shapes = case_.shapes or (ALL8 if th else FOUR)
-        us.append(Unit(name, lambda ctx, n=name, s=shapes: h_case(ctx, n, s), must_cover=case_.cover or COVER, max_seconds=900 if th else 170,
+        us.append(Unit(name, lambda ctx, n=name, s=shapes: h_case(ctx, n, s), must_cover=case_.cover or COVER, max_seconds=1200 if th else 400,
                        max_paths=40000, weight=len(shapes) * 3 ** len(case_.nums)))
     for group in SAMPLES:
-        us.append(Unit(group, lambda ctx, g=group: h_samples(ctx, g), must_cover=('accept', 'refuse'), max_seconds=170, weight=30))
+        us.append(Unit(group, lambda ctx, g=group: h_samples(ctx, g), must_cover=('accept', 'refuse'), max_seconds=400, weight=30))
     return us
